@@ -4,7 +4,8 @@
 EXTENDS NodeStore
 Big == BigFactor
 OptsOne  == {[hf |-> 1, df |-> Big, skip |-> {}]}
-OptsQuick == {[hf |-> h, df |-> d, skip |-> s] : h \in {1, 2}, d \in {1, Big}, s \in {{}, {"a"}}}
+OptsQuick == {[hf |-> 1, df |-> Big, skip |-> {}], [hf |-> 2, df |-> Big, skip |-> {}],
+              [hf |-> 1, df |-> 1, skip |-> {"a"}], [hf |-> 2, df |-> 2, skip |-> {"a"}]}
 OptsFull == {[hf |-> h, df |-> d, skip |-> s] : h \in {1, 2, Big}, d \in {1, 2, Big}, s \in {{}, {"a"}}}
 OptsTeeth == {[hf |-> h, df |-> Big, skip |-> {}] : h \in {1, 2}}
 OptsAS   == {[hf |-> 1, df |-> d, skip |-> {}] : d \in {1, Big}}
